@@ -179,6 +179,7 @@ func loadHistoryV1L(prog *common.Program, initial []string, steps [][]string, lo
 	os.Setenv("GOPATH", root)
 	build.Default.GOPATH = root
 	b := parser.New()
+	b.IncludeTestFiles = prog.TestFiles
 	for _, p := range initial {
 		if err := b.AddDir(p); err != nil {
 			return nil, false, nil, fmt.Errorf("AddDir(%s): %v", p, err)
